@@ -386,38 +386,50 @@ func RunTermination(t *rapid.T, test string) {
 	lib.Class(test, "faulty-in-suffix:"+byzMode)
 	iterBudget := int(R+2)*5 + 40
 	decidedAt := int32(-1)
+	target, base := hStar, rMax
+	extraHeight := rapid.IntRange(0, 2).Draw(t, "extraHeight") == 0
+	if extraHeight {
+		lib.Class(test, "suffix-also-decides-next-height")
+	}
 	for iter := 0; ; iter++ {
 		if !net.Quiesce() {
 			t.Fatalf("VERIF-INFRA: idealised gossip did not reach a fixpoint\n%s", net.Tail(60))
 		}
 		w.check(shadow, "suffix gossip")
-		if w.minHeight() >= hStar {
+		if w.minHeight() >= target {
+			if extraHeight && target == hStar {
+				// the network stays synchronous: the NEXT height must be decided within the bound as well (what was
+				// accepted while deciding this one must not poison the next, e.g. the commit handed to the proposer)
+				target, base, iter = hStar+1, 0, 0
+				net.StopHeight = target
+				continue
+			}
 			break
 		}
 		// round bound
 		for _, k := range net.Order {
 			rs := net.Nodes[k].RS()
-			if rs.Height == hStar && rs.Round > rMax+R {
-				t.Fatalf("C03 violated: node %d reached round %d of height %d, more than R=%d rounds after synchrony began at round %d, without deciding\npowers=%v faulty=%v\n%s",
-					k, rs.Round, hStar, R, rMax, s.powers, s.faulty, net.Tail(120))
+			if rs.Height == target && rs.Round > base+R {
+				t.Fatalf("C03 violated: node %d reached round %d of height %d, more than R=%d rounds after synchrony began (round %d of that height at the time), without deciding\npowers=%v faulty=%v\n%s",
+					k, rs.Round, target, R, base, s.powers, s.faulty, net.Tail(120))
 			}
 		}
 		if iter > iterBudget {
 			t.Fatalf("C03 violated: no decision of height %d after %d gossip/timeout iterations (round bound R=%d not even reached: the nodes are not advancing)\npowers=%v faulty=%v\n%s",
-				hStar, iter, R, s.powers, s.faulty, net.Tail(120))
+				target, iter, R, s.powers, s.faulty, net.Tail(120))
 		}
 		// faulty validators keep acting
 		if byzMode == "nil-votes" || (byzMode == "random" && rapid.IntRange(0, 2).Draw(t, "byzInSuffix") == 0) {
 			if byzMode == "nil-votes" {
 				top := int32(0)
 				for _, k := range net.Order {
-					if rs := net.Nodes[k].RS(); rs.Height == hStar && rs.Round > top {
+					if rs := net.Nodes[k].RS(); rs.Height == target && rs.Round > top {
 						top = rs.Round
 					}
 				}
 				for _, k := range s.faulty {
-					net.InjectVote(k, tmproto.PrevoteType, hStar, top, types.BlockID{}, nil)
-					net.InjectVote(k, tmproto.PrecommitType, hStar, top, types.BlockID{}, nil)
+					net.InjectVote(k, tmproto.PrevoteType, target, top, types.BlockID{}, nil)
+					net.InjectVote(k, tmproto.PrecommitType, target, top, types.BlockID{}, nil)
 				}
 			} else {
 				switch rapid.SampledFrom([]string{"bprop", "bvote", "bvote"}).Draw(t, "byzAct") {
@@ -442,15 +454,15 @@ func RunTermination(t *rapid.T, test string) {
 				t.Fatalf("VERIF-INFRA: idealised gossip did not reach a fixpoint\n%s", net.Tail(60))
 			}
 			w.check(shadow, "suffix byz")
-			if w.minHeight() >= hStar {
-				break
+			if w.minHeight() >= target {
+				continue
 			}
 		}
 		// timeouts: messages have all been delivered, so now timers may expire
 		fired := false
 		if rapid.Bool().Draw(t, "fireAllAtOnce") {
 			for _, k := range net.Order {
-				if net.Nodes[k].RS().Height <= hStar && net.Fire(k) {
+				if net.Nodes[k].RS().Height <= target && net.Fire(k) {
 					fired = true
 				}
 			}
@@ -459,7 +471,7 @@ func RunTermination(t *rapid.T, test string) {
 			best := -1
 			for _, k := range net.Order {
 				n := net.Nodes[k]
-				if n.Crashed != "" || !n.Ticker.Armed || n.RS().Height > hStar {
+				if n.Crashed != "" || !n.Ticker.Armed || n.RS().Height > target {
 					continue
 				}
 				if best < 0 || lessHRS(n, net.Nodes[best]) {
@@ -473,7 +485,7 @@ func RunTermination(t *rapid.T, test string) {
 		w.check(shadow, "suffix fire")
 		if !fired {
 			t.Fatalf("C03 violated: wedged - height %d undecided at some correct node, gossip is quiescent and no timeout is armed\nstates: %s\npowers=%v faulty=%v\n%s",
-				hStar, w.states(), s.powers, s.faulty, net.Tail(120))
+				target, w.states(), s.powers, s.faulty, net.Tail(120))
 		}
 	}
 	for _, k := range net.Order {
